@@ -216,6 +216,22 @@ def run_case(case, res):
     res.count("fills", st1["fills"])
     res.count("records", st1["records"])
     res.count("callbacks", st1["callbacks"])
+    # the runner also accepts a path / file object: same configuration, same outcome
+    if case["seed"] % 3 == 0:
+        d = tempfile.mkdtemp(prefix="pamsmon-c07f-")
+        try:
+            path = os.path.join(d, "config.json")
+            with open(path, "w") as f:
+                json.dump(pristine, f)
+            d4, st4, out4 = run_digest(case, settings_obj=path if case["seed"] % 2 else open(path))
+            res.count("settings_from_file_runs")
+            if out4.error is not None or d4 != d1:
+                res.violation("repro", "outcome-differs-when-the-same-settings-are-read-from-a-file",
+                              {"digest_dict": d1, "digest_file": d4, "error": repr(out4.error)})
+        finally:
+            import shutil
+
+            shutil.rmtree(d, ignore_errors=True)
     # child processes with different hash seeds
     if case.get("children"):
         d = tempfile.mkdtemp(prefix="pamsmon-c07-")
